@@ -1096,6 +1096,12 @@ void Analyser::AnalyserImpl::analyseComponent(const ComponentPtr &component)
 
     if (!component->math().empty()) {
         for (const auto &doc : multiRootXml(component->math())) {
+            // Note: a math string that is not well-formed XML has no root node.
+
+            if (doc->rootNode() == nullptr) {
+                continue;
+            }
+
             for (auto node = doc->rootNode()->firstChild(); node != nullptr; node = node->next()) {
                 if (node->isMathmlElement()) {
                     // Create and keep track of the equation associated with the
